@@ -1,12 +1,12 @@
 #!/bin/sh
 # Build everything the checks need from files on disk only (offline), so that the quick
-# commands only pay for incremental rebuilds of what changed under /repo.
-set -e
+# commands only pay for incremental rebuilds of what changed under /repo.  Failures here are
+# not fatal: every check builds what it needs itself and reports a tool error if it cannot.
 cd "$(dirname "$0")/.."
 export CARGO_NET_OFFLINE=true
 mkdir -p .build work evidence
 cd harness
-cargo build --offline --bins 2>&1 | tail -2
+for f in src/bin/*.rs; do b=$(basename "$f" .rs); cargo build --offline --bin "$b" 2>&1 | tail -1; done
 for b in c02h c03 c12 c17; do cargo build --offline --features hooks --bin $b 2>&1 | tail -1; done
 for b in c01 c02 c04; do cargo build --offline --features simd --bin $b 2>&1 | tail -1; done
 for b in c01 c02; do cargo build --offline --features portable-popcount --bin $b 2>&1 | tail -1; done
@@ -14,3 +14,4 @@ cargo build --offline --features scalar-yaml --bin c16 2>&1 | tail -1
 cd ..
 cargo build --offline --manifest-path /repo/Cargo.toml --features cli,verif-hooks --bin succinctly --target-dir .build/cli-target 2>&1 | tail -2
 echo setup done
+exit 0
